@@ -403,7 +403,7 @@ pub fn run(ctx: &Ctx) -> Report {
     rep.part("schedule search on the pair classes (two workers scanning one directory)", st, json!({"d": if q { 1 } else { 2 }}));
     // failures while the backup is being arranged: listing the directory, probing, renaming
     {
-        let w = Worker::new(45, &ctx.pool.bins);
+        let w = Worker::new(145, &ctx.pool.bins);
         let mut jobs = vec![];
         let mut errs = vec![];
         let mut nsites = 0;
